@@ -12,6 +12,8 @@
 //   out  : per op  <result 0/1/L>[e<encrypted> l<locked> p<#walletdescriptorkey records>/c<#walletdescriptorckey>/m<#mkey>
 //                  f<occurrences of an original plaintext secret in the bytes of the wallet file + journal> s<#spkm able to give a private key>/<#spkm>
 //                  k<1 = the original descriptors give exactly the original private keys, 0 = no private keys, X = different keys>]
+//          DIED[<summary of the wallet reloaded from the file>] when EncryptWallet hit assert(false) (the driver catches
+//          SIGABRT, abandons that wallet object and loads a byte copy of the file as it was at that moment)
 //          and for @j ops  S{<the same state summary for the wallet loaded from the snapshot> | LOADFAIL | -}
 // mode "bytes": the crypter functions on bytes
 //   kdf <pass> <salt> <rounds>            CCrypter::SetKeyFromPassphrase -> key || iv, or F
@@ -47,6 +49,8 @@
 #include <key.h>
 #include <util/time.h>
 #include "walletdb_common.h"
+#include <csetjmp>
+#include <csignal>
 
 using namespace wallet;
 using namespace wdb;
@@ -67,6 +71,16 @@ SecureString pass_of(const std::string& h)
     const auto b = vd::unhex(h);
     return SecureString(b.begin(), b.end());
 }
+
+sigjmp_buf g_jb;
+volatile sig_atomic_t g_armed = 0;
+void on_abort(int)
+{
+    if (g_armed) { g_armed = 0; siglongjmp(g_jb, 1); }
+    std::signal(SIGABRT, SIG_DFL);
+    std::raise(SIGABRT);
+}
+std::vector<std::shared_ptr<CWallet>>* g_graveyard = new std::vector<std::shared_ptr<CWallet>>();
 
 struct Env : public BasicTestingSetup {
     WalletContext ctx;
@@ -224,7 +238,32 @@ struct Run {
         std::string r;
         try {
             const std::string& o = f[0];
-            if (o == "enc") { arm(2); r = w->EncryptWallet(pass_of(f.at(1))) ? "1" : "0"; }
+            if (o == "enc") {
+                arm(2);
+                const SecureString pw = pass_of(f.at(1));
+                std::signal(SIGABRT, on_abort);
+                if (sigsetjmp(g_jb, 1) == 0) {
+                    g_armed = 1;
+                    r = w->EncryptWallet(pw) ? "1" : "0";
+                    g_armed = 0;
+                } else {
+                    // assert(false) inside EncryptWallet: the process would be dead.  What is on disk now is what the next
+                    // start finds: abandon the wallet object (its mutexes are still held) and load a copy of the file.
+                    ctl->oracle.clear();
+                    const std::string old = file();
+                    ++gen;
+                    FaultCtl::copy_db(old, file());
+                    g_graveyard->push_back(w);
+                    w = nullptr;
+                    bilingual_str error;
+                    std::vector<bilingual_str> warnings;
+                    ctl = std::make_shared<FaultCtl>();
+                    try { w = CWallet::LoadExisting(env.ctx, "", open_db(file(), ctl), error, warnings); } catch (const std::exception&) { w = nullptr; }
+                    if (!w) dead = true;
+                    r = "DIED";
+                }
+                std::signal(SIGABRT, SIG_DFL);
+            }
             else if (o == "lock") r = w->Lock() ? "1" : "0";
             else if (o == "unlock") r = w->Unlock(pass_of(f.at(1))) ? "1" : "0";
             else if (o == "chpass") { arm(3); r = w->ChangeWalletPassphrase(pass_of(f.at(1)), pass_of(f.at(2))) ? "1" : "0"; }
